@@ -794,15 +794,16 @@ func (g *c19G) weightedRoute() c19Route {
 // mutation operators and their weights (index = operator number in mutate)
 var c19MutDeck = c19Deck([]int{3, 4, 3, 3, 4, 3, 2, 2, 3, 2, 4, 4, 4, 3})
 
-// c19GenCase: one case = 1..6 requests. Three shapes: independent requests;
-// an index life-cycle scenario on one (possibly path-grammar) name: create,
-// add, use, drop; a burst on one route.
+// c19GenCase: one case = 1..12 requests. Shapes: independent requests; an index
+// life-cycle scenario on one (possibly path-grammar) name: create, add, use,
+// drop; a published limit; a name sweep; a burst on one route; a nested-metadata
+// history; feature vocabulary through the generic routes (c19_vocab_test.go).
 func c19GenCase() *rapid.Generator[c19Case] {
 	return rapid.Custom(func(t *rapid.T) c19Case {
 		g := &c19G{t: t}
 		c := c19Case{}
 		c.Restart = g.chance("restart", 1, 6)
-		switch shape := 11 - g.pick("shape", 12); { // the minimal draw selects independent requests
+		switch shape := 14 - g.pick("shape", 15); { // the minimal draw selects independent requests
 		case shape < 3: // life-cycle scenario
 			g.dotdot = 6
 			name := g.oneOf("scn", "n1", "a/b", "")
@@ -984,6 +985,9 @@ func c19GenCase() *rapid.Generator[c19Case] {
 					post("/system/save", "", "nested-history-save")
 				}
 			}
+		case shape < 12: // the features' own edge / metadata names written through the generic routes, then the routes that interpret them (c19_vocab_test.go)
+			g.dotdot = 6
+			g.vocabCase(&c)
 		default:
 			for i, n := 0, 1+g.pick("len", 6); i < n; i++ {
 				c.Reqs = append(c.Reqs, g.request(g.weightedRoute(), "", true))
